@@ -20,6 +20,7 @@ ASSUMPTIONS = ["reference relation by breadth-first search over (position, state
                "library-produced transducers are evaluated by the reference interpreter with an output-length guard",
                "epsilon cycles write nothing (domain of the property)"]
 BUDGET = {"quick": 400, "thorough": 5000}
+FUZZ = {"procs": 4, "runs": 8000}      # atheris supplement of the thorough tier (vlib/fuzz.py)
 WATCHDOG = 30
 
 
